@@ -58,8 +58,10 @@ TargetTree(ev) == IF ev.k = "eq" THEN ev.ast ELSE Intended(ev.case.items)
 ShapeBroken(ev) == /\ IsEq(ev) /\ AllBinary(TargetTree(ev))
                    /\ \/ (ev.tr.op # "?" /\ ~SameShape(ev.tr, TargetTree(ev)))
                       \/ (ev.to.op # "?" /\ ~SameShape(ev.to, TargetTree(ev)))
-ModelSays(ev) == IF ev.k = "eq" THEN Expect(ev.ast, ev.elem, ev.elem)
-                 ELSE IF ev.k = "txt" THEN Expect(Intended(ev.case.items), ev.elem, ev.elem)
+\* what $ denotes: the element for Script.Match, the list [elem] when the filter is applied to that list
+RootOfForm(ev) == IF ev.form \in {"Filter.String", "ParseString.filter", "NewFilter"} THEN ArrV(<<ev.elem>>) ELSE ev.elem
+ModelSays(ev) == IF ev.k = "eq" THEN Expect(ev.ast, ev.elem, RootOfForm(ev))
+                 ELSE IF ev.k = "txt" THEN Expect(Intended(ev.case.items), ev.elem, RootOfForm(ev))
                  ELSE "ANY"
 Verdict14(ev) ==
     IF ev.perr = 2 THEN "printer-panics"
